@@ -396,7 +396,11 @@ func (e *env) runCase(c *lib.Ctx, idx int) (st caseStats, vs []viol) {
 			mg := cloneGroup(g)
 			mg.Txs[i] = mu.Apply(g.Txs[i])
 			st.fieldMutants++
-			try("field:"+mu.Path+":raw", fmt.Sprintf("member %d field %s", i, mu), mg)
+			cls := "field:" + mu.Path + ":raw"
+			if strings.HasPrefix(mu.Path, "signature.") { // driver-level: name the mutation and the driver
+				cls = "field:" + mu.Path + ":" + mu.Kind + ":" + ms[i].signer.Name
+			}
+			try(cls, fmt.Sprintf("member %d field %s", i, mu), mg)
 			if !strings.HasPrefix(mu.Path, "signature") {
 				rb := cloneGroup(mg)
 				rebuild(rb, nil)
@@ -476,6 +480,11 @@ func run(c *lib.Ctx) {
 	c.Assume("the attacker holds no member key: honest members are never re-signed; algebraic signature malleability (ECDSA s -> n-s) is not in the mutation alphabet",
 		"block height 100 of the default 'local' configuration (all forks active), minFee = cfg.GetMinTxFeeRate(), maxFee = cfg.GetMaxTxFee(100)",
 		"a panic inside Check/CheckSign on a mutant counts as a rejection (counted separately)")
+	stdout := os.Stdout
+	if dn, err := os.OpenFile(os.DevNull, os.O_WRONLY, 0); err == nil {
+		os.Stdout = dn // the sm2 driver prints to stdout on malformed signatures
+		defer func() { os.Stdout = stdout }()
+	}
 	cfg := types.NewChain33Config(types.GetDefaultCfgstring())
 	e := &env{cfg: cfg, minFee: cfg.GetMinTxFeeRate(), maxFee: cfg.GetMaxTxFee(height)}
 	for _, d := range txmut.KeyedDrivers() {
@@ -493,7 +502,7 @@ func run(c *lib.Ctx) {
 		c.Inconclusive("only %d usable crypto drivers: %v", len(e.drivers), e.drivers)
 		return
 	}
-	n := c.N(90, 3000)
+	n := c.N(60, 2400)
 	var mu sync.Mutex
 	classes := map[string]int64{}
 	lib.Parallel(n, runtime.NumCPU(), func(i int) {
@@ -545,6 +554,7 @@ func run(c *lib.Ctx) {
 			classes[k] += v
 			c.Seen("mutation_classes", k)
 		}
+		c.Count("mutants_identical_after_rebuild_skipped", 0)
 		// one violation per shape and case
 		seen := map[string]bool{}
 		for _, v := range vs {
